@@ -455,6 +455,48 @@ func (g *Gen) capOp() Op {
 		choice = 0
 	}
 	g.nonce++
+	if g.R.Chance(0.06) {
+		// recipe: a capability derived under a different type than its controller's, whose target value is then replaced
+		a, p := g.free()
+		q := pubPath()
+		if _, occupied := c.Pub[a][q]; !occupied {
+			res := g.R.Chance(0.6)
+			n1, n2 := g.nonce, g.nonce+1
+			g.nonce += 2
+			var first Op
+			var ctlT, derT, newT *Ty
+			if res {
+				first = Op{K: "r.make", A: a, P: p, I: g.R.Intn(50)}
+				ctlT, derT, newT = TR, []*Ty{TAnyR, TRI}[g.R.Intn(2)], TV
+			} else {
+				first = Op{K: "st.save", A: a, P: p, V: g.valOf(TS, 2)}
+				ctlT, derT, newT = TS, []*Ty{TAnyS, TSI}[g.R.Intn(2)], TInt
+			}
+			g.queue = append(g.queue,
+				Op{K: "cap.issue", A: a, P: p, T: ctlT, S: "", N: n1},
+				Op{K: "cap.publish", A: a, N: n1, Q: q},
+				Op{K: "cap.derive", A: a, Q: q, T: derT, S: "", N: n2},
+			)
+			if res {
+				g.queue = append(g.queue, Op{K: "r.destroy", A: a, P: p}, Op{K: "r.makeV", A: a, P: p, I: 7})
+			} else {
+				g.queue = append(g.queue, Op{K: "st.load", A: a, P: p, T: TS}, Op{K: "st.save", A: a, P: p, V: VInt(7)})
+			}
+			g.queue = append(g.queue,
+				Op{K: "cap.check", N: n2, T: newT, S: ""},
+				Op{K: "cap.borrow", N: n2, T: newT, S: ""},
+				Op{K: "cap.check", N: n1, T: newT, S: ""},
+				Op{K: "cap.check", N: n2, T: derT, S: ""},
+			)
+			if g.R.Chance(0.5) {
+				q2 := pubPath()
+				if _, occ := c.Pub[a][q2]; !occ && q2 != q {
+					g.queue = append(g.queue, Op{K: "cap.publish", A: a, N: n2, Q: q2}, Op{K: "cap.pborrow", A: a, Q: q2, T: newT, S: ""}, Op{K: "cap.get", A: a, Q: q2, T: newT, S: ""})
+				}
+			}
+			return first
+		}
+	}
 	if g.R.Chance(g.Cfg.BigRate * 0.25) {
 		a, p := g.target(nil)
 		cnt := 120 + g.R.Intn(200)
@@ -485,15 +527,26 @@ func (g *Gen) capOp() Op {
 			t = capTypes[g.R.Intn(len(capTypes))]
 		}
 		return Op{K: "cap.issue", A: a, P: p, T: t, S: capAuths[g.R.Intn(len(capAuths))], N: g.nonce}
-	case 3, 4:
+	case 3, 4, 5, 6:
 		n := pick()
 		cv := c.Vals[n]
 		t, au := typ(cv.T, cv.Auth)
-		return Op{K: "cap.check", N: n, T: t, S: au}
-	case 5, 6:
-		n := pick()
-		cv := c.Vals[n]
-		t, au := typ(cv.T, cv.Auth)
+		if ctl := c.Ctls[cv.Ctl]; ctl != nil && !ctl.T.Equal(cv.T) && g.R.Chance(0.5) {
+			// a derived capability: ask for a type compatible with the capability's type but not with its controller's
+			switch ctl.T.K {
+			case "R":
+				t, au = TV, ""
+			case "V":
+				t, au = TR, ""
+			case "S":
+				t, au = TInt, ""
+			case "Int":
+				t, au = TS, ""
+			}
+		}
+		if choice <= 4 {
+			return Op{K: "cap.check", N: n, T: t, S: au}
+		}
 		return Op{K: "cap.borrow", N: n, T: t, S: au}
 	case 7:
 		n := pick()
@@ -529,6 +582,34 @@ func (g *Gen) capOp() Op {
 	case 15:
 		return Op{K: "cap.unpublish", A: g.acct(), Q: pubPath()}
 	case 16:
+		if g.R.Chance(0.5) {
+			return Op{K: "cap.exists", A: g.acct(), Q: pubPath()}
+		}
+		// replace the value stored at a controller's target path by a value of another type
+		for _, n := range vals {
+			cv := c.Vals[n]
+			ctl := c.Ctls[cv.Ctl]
+			if ctl == nil || !ctl.Live || !g.R.Chance(0.5) {
+				continue
+			}
+			stored := g.M.Accts[ctl.Acct].Storage[ctl.Path]
+			switch {
+			case stored == nil:
+				continue
+			case stored.T.K == "R":
+				g.queue = append(g.queue, Op{K: "r.makeV", A: ctl.Acct, P: ctl.Path, I: g.R.Intn(50)})
+				return Op{K: "r.destroy", A: ctl.Acct, P: ctl.Path}
+			case stored.T.K == "V":
+				g.queue = append(g.queue, Op{K: "r.make", A: ctl.Acct, P: ctl.Path, I: g.R.Intn(50)})
+				return Op{K: "st.loadR", A: ctl.Acct, P: ctl.Path, T: TV}
+			case stored.T.K == "S":
+				g.queue = append(g.queue, Op{K: "st.save", A: ctl.Acct, P: ctl.Path, V: VInt(int64(g.R.Intn(50)))})
+				return Op{K: "st.load", A: ctl.Acct, P: ctl.Path, T: TS}
+			case stored.T.K == "Int":
+				g.queue = append(g.queue, Op{K: "st.save", A: ctl.Acct, P: ctl.Path, V: g.valOf(TS, 2)})
+				return Op{K: "st.load", A: ctl.Acct, P: ctl.Path, T: TInt}
+			}
+		}
 		return Op{K: "cap.exists", A: g.acct(), Q: pubPath()}
 	case 17, 18:
 		a, q := g.acct(), pubPath()
